@@ -543,7 +543,9 @@ fn run_fname_gen(r: &mut Rng, n: u64, any_col: bool) {
     }
     let words = ["function", "a", "ab", "\u{e9}", "a\u{e9}", "\u{1D49C}x", "$", "_1", "x\u{200d}y", "(", ")", "{", "}", "\u{1F44C}", "1", " ", "\t", "\u{a0}", ";", "function", "function", "function", "var", ",",
         "a\u{301}", "ab\u{661}", "a\u{203f}b", "a\u{b7}b", "\u{301}", "\u{b7}", "\u{feff}", "\u{feff}", "\u{2028}", "\u{2029}"];   // U+FEFF is a character like any other, also in front of everything
-    let cands = ["a", "ab", "\u{e9}", "a\u{e9}", "function", "\u{1D49C}x", "x\u{200d}y", "1a", "a b", "", "_1", "$", "a\u{301}", "ab\u{661}", "a\u{203f}b", "a\u{b7}b", "\u{301}a"];
+    let cands = ["a", "ab", "\u{e9}", "a\u{e9}", "function", "\u{1D49C}x", "x\u{200d}y", "1a", "a b", "", "_1", "$", "a\u{301}", "ab\u{661}", "a\u{203f}b", "a\u{b7}b", "\u{301}a",
+        // not identifiers, although they end in one (engine frame names such as "Object.a", "new a"): never resolved
+        "Object.a", "new a", " a", "this.ab", "a.", "x.function", "a b.ab"];
     for i in 0..n {
         let long = i % 10 == 0;
         let nlines = 1 + r.below(3); let mut lines: Vec<String> = vec![]; let mut toks: Vec<Tok> = vec![]; let mut wordat: Vec<(u32, u32, String)> = vec![];
